@@ -891,6 +891,24 @@ fn emit_family(prop: &str, seed: u64, quick: bool, out: &mut Vec<Fail>) -> usize
                         let gotv: Vec<String> = td.vftable.as_ref().map(|v| v.functions.iter().filter(|f| !f.name.starts_with("_vfunc_")).map(|f| format!("{}{} [{}]", if f.visibility == Visibility::Public { "pub " } else { "" }, f.name, f.calling_convention.as_str())).collect()).unwrap_or_default();
                         if gotv != wantv { gfail(&["C04", "C06", "C16", "C17"], format!("`{tpath}` named vftable functions {wantv:?}"), format!("{gotv:?}")); }
                     }
+                    // C17 / C15: visibility, marker flags, singleton address and doc string of every item; visibility and doc of fields
+                    for it in &expect.item_attrs {
+                        let Some(d) = st.type_registry().get(&ItemPath::from(it.path.as_str())) else { continue };
+                        let Some(isr) = d.resolved() else { continue };
+                        let (cp, cl, df, pk, sg, dc) = match &isr.inner {
+                            ItemDefinitionInner::Type(td) => (td.copyable, td.cloneable, td.defaultable, td.packed, td.singleton, td.doc.clone()),
+                            ItemDefinitionInner::Enum(ed) => (ed.copyable, ed.cloneable, ed.defaultable, false, ed.singleton, ed.doc.clone()),
+                        };
+                        let got = format!("public={} copyable={cp} cloneable={cl} defaultable={df} packed={pk} doc={dc:?}", d.visibility == Visibility::Public);
+                        let want = format!("public={} copyable={} cloneable={} defaultable={} packed={} doc={:?}", it.public, it.copyable, it.cloneable, it.defaultable, it.packed, it.doc);
+                        if got != want { gfail(&["C17"], format!("`{}` {want}", it.path), got); }
+                        if sg.map(|x| x as u128) != it.singleton { gfail(&["C15"], format!("`{}` singleton {:?}", it.path, it.singleton), format!("{sg:?}")); }
+                    }
+                    for (tpath, fname, public, fdoc) in &expect.field_attrs {
+                        let Some((_, td)) = get_type(&st, tpath) else { continue };
+                        let Some(rg) = td.regions.iter().find(|r| r.name.as_deref() == Some(fname.as_str())) else { gfail(&["C17", "C01"], format!("`{tpath}` has a field {fname}"), "missing".into()); continue };
+                        if (rg.visibility == Visibility::Public) != *public || rg.doc != *fdoc { gfail(&["C17"], format!("`{tpath}`.{fname} public={public} doc={fdoc:?}"), format!("public={} doc={:?}", rg.visibility == Visibility::Public, rg.doc)); }
+                    }
                     // C08: enum values and the default variant
                     for (epath, vals, def) in &expect.enums {
                         let Some(ed) = st.type_registry().get(&ItemPath::from(epath.as_str())).and_then(|d| d.resolved()).and_then(|r| r.inner.as_enum()) else { continue };
